@@ -76,42 +76,69 @@ Theorem C31_uniform_int_in_range_real (a b : Z) (r : R) :
 Proof. exact (uniform_int_in_range_real a b r). Qed.
 Print Assumptions C31_uniform_int_in_range_real.
 
-Theorem C31_uniform_int_in_range_binary64_refuted :
+Theorem C31_uniform_value_in_range_binary64 a b v :
+  (- 2 ^ 31 <= a)%Z -> (a < b)%Z -> (b <= 2 ^ 31)%Z -> (v < 2 ^ 64)%N ->
+  is_finite (uniform_value (fofZ a) (fofZ b) v) = true /\
+  IZR a <= B2R (uniform_value (fofZ a) (fofZ b) v) < IZR b.
+Proof. exact (uniform_value_in_range_binary64 a b v). Qed.
+Print Assumptions C31_uniform_value_in_range_binary64.
+
+Theorem C31_uniform_int_in_range_binary64 a b v :
+  (- 2 ^ 31 <= a)%Z -> (a < b)%Z -> (b <= 2 ^ 31)%Z -> (v < 2 ^ 64)%N ->
+  (a <= uniform_int (fofZ a) (fofZ b) v < b)%Z.
+Proof. exact (uniform_int_in_range_binary64 a b v). Qed.
+Print Assumptions C31_uniform_int_in_range_binary64.
+
+Theorem C31_uniform_clamp_inactive a b v :
+  (- 2 ^ 31 <= a)%Z -> (a < b)%Z -> (b <= 2 ^ 31)%Z -> (v < 2 ^ 64)%N ->
+  B2R (uniform_value_raw (fofZ a) (fofZ b) v) < IZR b ->
+  B2R (uniform_value (fofZ a) (fofZ b) v) = B2R (uniform_value_raw (fofZ a) (fofZ b) v).
+Proof. exact (uniform_clamp_inactive a b v). Qed.
+Print Assumptions C31_uniform_clamp_inactive.
+
+Theorem C31_fixed_witness_in_range :
+  uniform_int (fofZ 1073741824) (fofZ 1073741825) 18446742594892032221 = 1073741824%Z /\
+  bits_of (uniform_value (fofZ 0) (fofZ 1) 18446744073709551615) = 4607182418800017407%Z /\
+  uniform_int (fofZ 1) (fofZ 2) (2 ^ 64 - 2 ^ 10 - 1) = 1%Z.
+Proof. exact (@fixed_witness_in_range). Qed.
+Print Assumptions C31_fixed_witness_in_range.
+
+Theorem C31_prefix_uniform_int_overshoot :
   exists v, (v < 2 ^ 64 - 2 ^ 10)%N /\ B2R (res53 v) < 1 /\
-    uniform_int (fofZ 1073741824) (fofZ 1073741825) v = 1073741825%Z.
-Proof. exact (@uniform_int_in_range_binary64_refuted). Qed.
-Print Assumptions C31_uniform_int_in_range_binary64_refuted.
+    uniform_int_raw (fofZ 1073741824) (fofZ 1073741825) v = 1073741825%Z.
+Proof. exact (@prefix_uniform_int_overshoot). Qed.
+Print Assumptions C31_prefix_uniform_int_overshoot.
 
-Theorem C31_uniform_int_binary64_lower_bound a b v :
+Theorem C31_prefix_uniform_int_lower_bound a b v :
   (- 2 ^ 31 <= a)%Z -> (a < b)%Z -> (b <= 2 ^ 31)%Z -> (v < 2 ^ 64)%N ->
-  (a <= uniform_int (fofZ a) (fofZ b) v)%Z.
-Proof. exact (uniform_int_binary64_lower_bound a b v). Qed.
-Print Assumptions C31_uniform_int_binary64_lower_bound.
+  (a <= uniform_int_raw (fofZ a) (fofZ b) v)%Z.
+Proof. exact (prefix_uniform_int_lower_bound a b v). Qed.
+Print Assumptions C31_prefix_uniform_int_lower_bound.
 
-Theorem C31_uniform_value_binary64_closed_partial a b v :
+Theorem C31_prefix_uniform_value_closed a b v :
   (- 2 ^ 31 <= a)%Z -> (a < b)%Z -> (b <= 2 ^ 31)%Z -> (v < 2 ^ 64)%N ->
-  IZR a <= B2R (uniform_value (fofZ a) (fofZ b) v) <= IZR b.
-Proof. exact (uniform_value_binary64_closed_partial a b v). Qed.
-Print Assumptions C31_uniform_value_binary64_closed_partial.
+  IZR a <= B2R (uniform_value_raw (fofZ a) (fofZ b) v) <= IZR b.
+Proof. exact (prefix_uniform_value_closed a b v). Qed.
+Print Assumptions C31_prefix_uniform_value_closed.
 
-Theorem C31_uniform_int_binary64_monotone a b v1 v2 :
+Theorem C31_prefix_uniform_int_monotone a b v1 v2 :
   (- 2 ^ 31 <= a)%Z -> (a < b)%Z -> (b <= 2 ^ 31)%Z -> (v1 <= v2)%N -> (v2 < 2 ^ 64)%N ->
-  (uniform_int (fofZ a) (fofZ b) v1 <= uniform_int (fofZ a) (fofZ b) v2)%Z.
-Proof. exact (uniform_int_binary64_monotone a b v1 v2). Qed.
-Print Assumptions C31_uniform_int_binary64_monotone.
+  (uniform_int_raw (fofZ a) (fofZ b) v1 <= uniform_int_raw (fofZ a) (fofZ b) v2)%Z.
+Proof. exact (prefix_uniform_int_monotone a b v1 v2). Qed.
+Print Assumptions C31_prefix_uniform_int_monotone.
 
-Theorem C31_uniform_int_in_range_binary64_criterion a b :
+Theorem C31_prefix_uniform_int_criterion a b :
   (- 2 ^ 31 <= a)%Z -> (a < b)%Z -> (b <= 2 ^ 31)%Z ->
-  (uniform_int (fofZ a) (fofZ b) (2 ^ 64 - 2 ^ 10 - 1) < b)%Z ->
-  forall v, (v < 2 ^ 64 - 2 ^ 10)%N -> (a <= uniform_int (fofZ a) (fofZ b) v < b)%Z.
-Proof. exact (uniform_int_in_range_binary64_criterion a b). Qed.
-Print Assumptions C31_uniform_int_in_range_binary64_criterion.
+  (uniform_int_raw (fofZ a) (fofZ b) (2 ^ 64 - 2 ^ 10 - 1) < b)%Z ->
+  forall v, (v < 2 ^ 64 - 2 ^ 10)%N -> (a <= uniform_int_raw (fofZ a) (fofZ b) v < b)%Z.
+Proof. exact (prefix_uniform_int_criterion a b). Qed.
+Print Assumptions C31_prefix_uniform_int_criterion.
 
-Theorem C31_uniform_int_in_range_binary64_min0 b v :
+Theorem C31_prefix_uniform_int_min0 b v :
   (1 <= b)%Z -> (b <= 2 ^ 31)%Z -> (v < 2 ^ 64 - 2 ^ 10)%N ->
-  (0 <= uniform_int (fofZ 0) (fofZ b) v < b)%Z.
-Proof. exact (uniform_int_in_range_binary64_min0 b v). Qed.
-Print Assumptions C31_uniform_int_in_range_binary64_min0.
+  (0 <= uniform_int_raw (fofZ 0) (fofZ b) v < b)%Z.
+Proof. exact (prefix_uniform_int_min0 b v). Qed.
+Print Assumptions C31_prefix_uniform_int_min0.
 
 Theorem C31_polar_symmetric fuel : forall us, polar RG fuel (map mirror us) = neg_result (polar RG fuel us).
 Proof. exact (polar_symmetric fuel). Qed.
@@ -150,15 +177,15 @@ Theorem C31_gauss_radius x y : 0 < x * x + y * y < 1 ->
 Proof. exact (gauss_radius x y). Qed.
 Print Assumptions C31_gauss_radius.
 
-Theorem C31_criterion_holds_m5_5 : (uniform_int (fofZ (-5)) (fofZ 5) (2 ^ 64 - 2 ^ 10 - 1) < 5)%Z.
+Theorem C31_criterion_holds_m5_5 : (uniform_int_raw (fofZ (-5)) (fofZ 5) (2 ^ 64 - 2 ^ 10 - 1) < 5)%Z.
 Proof. exact (@criterion_holds_m5_5). Qed.
 Print Assumptions C31_criterion_holds_m5_5.
 
-Theorem C31_criterion_fails_1_2 : uniform_int (fofZ 1) (fofZ 2) (2 ^ 64 - 2 ^ 10 - 1) = 2%Z.
+Theorem C31_criterion_fails_1_2 : uniform_int_raw (fofZ 1) (fofZ 2) (2 ^ 64 - 2 ^ 10 - 1) = 2%Z.
 Proof. exact (@criterion_fails_1_2). Qed.
 Print Assumptions C31_criterion_fails_1_2.
 
-Theorem C31_criterion_fails_100_101 : uniform_int (fofZ 100) (fofZ 101) (2 ^ 64 - 2 ^ 10 - 1) = 101%Z.
+Theorem C31_criterion_fails_100_101 : uniform_int_raw (fofZ 100) (fofZ 101) (2 ^ 64 - 2 ^ 10 - 1) = 101%Z.
 Proof. exact (@criterion_fails_100_101). Qed.
 Print Assumptions C31_criterion_fails_100_101.
 
